@@ -39,6 +39,9 @@ outer:
 		cands = []string{"id"}
 	}
 	n := rapid.IntRange(1, 4).Draw(t, "norders")
+	if rapid.IntRange(0, 5).Draw(t, "manykeys") == 0 {
+		n = rapid.IntRange(5, 8).Draw(t, "norders2") // long key lists: later keys decide among rows tied on the earlier ones
+	}
 	os := make([]hx.Order, n)
 	for i := range os {
 		os[i] = hx.Order{Col: rapid.SampledFrom(cands).Draw(t, "ordercol"), Reverse: rapid.Bool().Draw(t, "reverse"),
@@ -146,7 +149,11 @@ func TestC03(t *testing.T) {
 		classes := []string{}
 		switch {
 		case mode == 0: // adversarial int column forcing heapsort
-			n := rapid.SampledFrom([]int{100, 200, 500, 1000, 2500, 5000}).Draw(t, "n")
+			sizes := []int{100, 200, 500, 1000, 2500, 5000}
+			if tier() == "thorough" {
+				sizes = append(sizes, 13, 41, 64, 20000, 50000)
+			}
+			n := rapid.SampledFrom(sizes).Draw(t, "n")
 			rev := rapid.Bool().Draw(t, "reverse")
 			seed := hx.SplitMix(rapid.Uint64().Draw(t, "fill"))
 			var killer []int
@@ -187,7 +194,11 @@ func TestC03(t *testing.T) {
 			orders = []hx.Order{{Col: "k", Reverse: rev}}
 			classes = append(classes, "adversarial")
 		case mode <= 3: // large frames filled from one seed
-			n := rapid.IntRange(201, 5000).Draw(t, "n")
+			maxN := 5000
+			if tier() == "thorough" {
+				maxN = 60000 // deeper recursion, more ninther/protect rounds
+			}
+			n := rapid.IntRange(201, maxN).Draw(t, "n")
 			seed := hx.SplitMix(rapid.Uint64().Draw(t, "fill"))
 			card := rapid.SampledFrom([]int{1, 2, 3, 10, 100, 100000}).Draw(t, "card")
 			decl := []string{"c", "a", "b", "", "B"}
